@@ -112,6 +112,25 @@ func runScan(src string) runResult {
 	})
 }
 
+// scanTokens returns the tokens of src up to EOF, the first error or the first ILLEGAL token (with
+// the same progress bound as runScan); never panics.
+func scanTokens(src string) (out []token.Token) {
+	defer func() { _ = recover() }()
+	s, err := scanner.NewScanner("", src)
+	if err != nil {
+		return nil
+	}
+	limit := len([]rune(src)) + 2
+	for i := 0; i <= limit; i++ {
+		tok, err := s.NextToken()
+		if err != nil || tok.Type == token.EOF || tok.Type == token.ILLEGAL {
+			return out
+		}
+		out = append(out, tok)
+	}
+	return out
+}
+
 // comments returns the texts of all comments of src in source order, as the scanner sees them.
 func scanComments(src string) ([]string, error) {
 	s, err := scanner.NewScanner("", src)
